@@ -1,4 +1,77 @@
-From HP Require Import Base.Prelude Base.Path KV.Types KV.Run Compose.Mount.
-Example C06_smoke : mount_route [(S "a", 1%nat); (S "ab", 2%nat)] (S "ab/x") = (2%nat, S "x").
-Proof. vm_compute. reflexivity. Qed.
-Print Assumptions C06_smoke.
+(* C06 -- mount.FS routes every path to the longest matching mount point, and only there.
+   Model: Compose/Mount.v ([mp_scan]/[mount_point]/[mount_route] = mountPoint/Mount of mount/fs.go with
+   the table as ONE iteration order of sync.Map.Range; [route1] = a helper's MountFS branch; [m_rename] =
+   mount.FS.Rename; constituents are key-value FS models).  The whole composition is compared with the
+   code (result, translated error, exact contents of every constituent) on every run.
+   (* OPEN: C06_cross_mount_rename_all_or_nothing -- m_rename is modelled and exercised, its atomicity is not proved *) *)
+From HP Require Import Base.Prelude Base.Path KV.Types KV.FS KV.Handle KV.Run Compose.Mount Compose.MountProofs.
+From Coq Require Import Permutation.
+Open Scope nat_scope.
+
+(* Routing does not depend on the iteration order of the mount table: for EVERY permutation, any number
+   of mount points, including string-prefix look-alikes and nested points. *)
+Theorem C06_routing_independent_of_table_order : forall t t' p,
+  NoDup (map fst t) -> Forall (fun x => fst x <> []) t -> Permutation t t' ->
+  mount_route t' p = mount_route t p /\ mount_point t' p = mount_point t p.
+Proof.
+  intros t t' p ND NE Pm. split; [apply mount_route_order_independent|apply mount_point_order_independent]; assumption.
+Qed.
+Print Assumptions C06_routing_independent_of_table_order.
+
+(* The mount point selected equals the path or is a whole-element prefix of it, and no matching mount
+   point is longer (the root FS when none matches). *)
+Theorem C06_longest_matching_mount_point : forall t p,
+  let r := mp_scan t p [] 0 in
+  (r = ([], 0) \/ (In r t /\ matches (fst r) p = true))
+  /\ (forall mp fs, In (mp, fs) t -> matches mp p = true -> length mp <= length (fst r)).
+Proof. exact mp_scan_longest. Qed.
+Print Assumptions C06_longest_matching_mount_point.
+
+Theorem C06_lookalike_prefixes_not_confused :
+  matches (S "a") (S "ab/x") = false /\ matches (S "ab") (S "ab/x") = true.
+Proof. exact lookalike_not_matched. Qed.
+Print Assumptions C06_lookalike_prefixes_not_confused.
+
+(* An operation through the mount FS takes effect in exactly the constituent it is routed to: every
+   other constituent, and the mount table, are untouched ... *)
+Theorem C06_only_the_routed_constituent_changes : forall m name mk j,
+  j <> fst (mount_route (m_table m) name) ->
+  fs_at (fst (route1 m name mk)) j = fs_at m j /\ m_table (fst (route1 m name mk)) = m_table m.
+Proof. exact route1_isolated. Qed.
+Print Assumptions C06_only_the_routed_constituent_changes.
+
+(* ... and its result is the one the same operation yields when applied there directly, the error
+   paths translated back into the caller's namespace. *)
+Theorem C06_result_is_the_direct_one : forall m name mk,
+  let '(i, sub) := mount_route (m_table m) name in
+  snd (route1 m name mk) = map_obs_err (strip_err name sub) (snd (step (fs_at m i) (mk sub)))
+  /\ fs_at (fst (route1 m name mk)) i = fst (step (fs_at m i) (mk sub)) \/ length (m_fs m) <= i.
+Proof. exact route1_is_direct. Qed.
+Print Assumptions C06_result_is_the_direct_one.
+
+(* Of any number of concurrent AddMount calls for one mount point, under every interleaving, at most one
+   succeeds, and exactly one once any of them reached LoadOrStore. *)
+Theorem C06_addmount_at_most_one : forall n s, areach n s -> succ_count (a_phases s) <= 1.
+Proof. intros n s R. destruct (addmount_at_most_one n s R) as (_ & H & _). exact H. Qed.
+Print Assumptions C06_addmount_at_most_one.
+
+Theorem C06_addmount_exactly_one : forall n s, areach n s -> a_stored s = true -> succ_count (a_phases s) = 1.
+Proof. exact addmount_exactly_one. Qed.
+Print Assumptions C06_addmount_exactly_one.
+
+(* Non-vacuity: nested and look-alike mount points, a file renamed across two mounts. *)
+Example C06_nonvacuous :
+  let t := [(S "a", 1); (S "ab", 2); (S "a/b", 3)] in
+  mount_route t (S "a/b/c") = (3, S "c") /\ mount_route t (S "ab") = (2, dot) /\ mount_route t (S "abc/x") = (0, S "abc/x")
+  /\ mount_route (rev t) (S "a/b/c") = (3, S "c").
+Proof. vm_compute. auto. Qed.
+Print Assumptions C06_nonvacuous.
+
+Example C06_cross_mount_rename_witness :
+  let m := minit [S "a"; S "b"] in
+  let m1 := fst (mstep m (WriteFile (S "a/f") [1;2;3]%N 416%N)) in
+  let '(m2, r) := mstep m1 (Rename (S "a/f") (S "b/g")) in
+  r = VOk /\ map (fun e => fst (fst (fst e))) (snapshot (fs_at m2 1)) = [dot]
+  /\ map (fun e => (fst (fst (fst e)), snd e)) (snapshot (fs_at m2 2)) = [(dot, []); (S "g", [1;2;3]%N)].
+Proof. vm_compute. auto. Qed.
+Print Assumptions C06_cross_mount_rename_witness.
